@@ -128,8 +128,8 @@ pub fn run(cx: &mut Ctx) {
             // -------------------------------------------------- Ed25519 -> X25519 conversion (honest pairs)
             let wx_pk = na::ed_pk_to_curve(&wpk).expect("libsodium converts honest keys");
             let wx_sk = na::ed_sk_to_curve(&wsk);
-            let mut xpk = [0u8; 32];
-            let mut xsk = [0u8; 32];
+            let mut xpk = stale_arr::<32>();
+            let mut xsk = stale_arr::<32>();
             let c2 = || json!({"op":"ed25519_to_curve25519","ed_pk":hx(&wpk),"seed":hx(&seed)});
             if let Some(r) = call(cx, "C13|crypto_sign_ed25519_pk_to_curve25519", "crypto_sign_ed25519_pk_to_curve25519", c2, || crypto_sign_ed25519_pk_to_curve25519(&mut xpk, &wpk)) {
                 expect(cx, "C13|crypto_sign_ed25519_pk_to_curve25519|rejects_honest_key", r.is_ok(), c2);
